@@ -20,6 +20,7 @@ type c18Rcpt struct {
 	Refuse  bool   `json:"refuse"`  // refused at RCPT time
 	Verdict string `json:"verdict"` // ok | fail (status after DATA)
 	Code    int    `json:"code"`    // RCPT acceptance code (250 or 251)
+	Dup     bool   `json:"dup"`     // the same address as the previous recipient of the transaction (it is accepted again and gets a status of its own)
 }
 
 type c18Case struct {
@@ -122,6 +123,10 @@ func c18Run(ctx *core.Ctx) {
 				}
 			}
 		}
+		// the same address accepted twice in one transaction: two RCPTs, two statuses
+		emitAll([][]c18Rcpt{{{Verdict: "ok"}, {Verdict: "ok", Dup: true}}})
+		emitAll([][]c18Rcpt{{{Verdict: "fail"}, {Verdict: "fail", Dup: true}, {Verdict: "ok"}}, {{Verdict: "ok"}}})
+		emitAll([][]c18Rcpt{{{Verdict: "ok"}, {Verdict: "ok", Dup: true}}, {{Verdict: "fail"}, {Verdict: "ok"}}})
 		// recipients accepted with 251 (will forward)
 		emitAll([][]c18Rcpt{{{Verdict: "ok", Code: 251}, {Verdict: "fail"}, {Verdict: "ok"}}})
 		emitAll([][]c18Rcpt{{{Verdict: "fail"}, {Verdict: "ok", Code: 251}}, {{Verdict: "ok"}, {Verdict: "fail", Code: 251}}})
@@ -271,6 +276,7 @@ func c18Exec(ctx *core.Ctx, c c18Case) {
 			}
 		}
 		curTxn = ti
+		prevAddr := ""
 		for ri, r := range t {
 			tag := "ok"
 			switch {
@@ -283,6 +289,10 @@ func c18Exec(ctx *core.Ctx, c c18Case) {
 				tag += "fwd"
 			}
 			addr := fmt.Sprintf("t%dr%d-%s@x.test", ti, ri, tag)
+			if r.Dup && prevAddr != "" {
+				addr = prevAddr
+			}
+			prevAddr = addr
 			err := cl.Rcpt(addr, nil)
 			if r.Refuse {
 				if err == nil {
